@@ -39,11 +39,14 @@ epoch-arithmetic expressions the theorems below are about. -/
 theorem C17_generated_templates : tb2Expr = tmpl2 ∧ tb3Expr = tmpl3 ∧ dtExpr = tmpl2 := by decide
 
 /-- `intervalToSeconds` maps every unit to the number of seconds DuckDB's fixed-length interval has
-(0 = leave to DuckDB: month), and every unit the `date_trunc` regex accepts is one of them. -/
+(0 = leave to DuckDB: month), every unit the `date_trunc` regex accepts is one of them, and the amount is
+parsed in base 10 (as DuckDB reads interval literals: `'010 minutes'` is ten minutes), which is what the
+model's `intervalToSeconds` (a `Nat` amount read from the decimal digits) assumes. -/
 theorem C17_generated_units :
     (∀ u : TUnit, lookupUnit unitTable u.name = u.secs) ∧
-    dtUnits.all (fun u => (TUnit.ofString? u).isSome) = true := by
-  refine ⟨fun u => ?_, by decide⟩
+    dtUnits.all (fun u => (TUnit.ofString? u).isSome) = true ∧
+    amountParseBase = 10 := by
+  refine ⟨fun u => ?_, by decide, by decide⟩
   cases u <;> decide
 
 /-- the arms of `buildURLDomainCASE` are the four scheme/`www.` prefixes with `substr` starting right
